@@ -48,7 +48,7 @@ def main():
         meta["demo_patched_tail"] = (r1.stdout + r1.stderr)[-400:]
         ok = r0.returncode == 0 and r1.returncode != 0
         if suite and ok:
-            rs = sh(["/venv/bin/python", "-m", "pytest", "-q", "-p", "no:cacheprovider", "--timeout=900", "-x", "-q",
+            rs = sh(["/venv/bin/python", "-m", "pytest", "-q", "-p", "no:cacheprovider", "--timeout=900", "-x", "-q", "--basetemp", tmp + "/.pytest_tmp",
                      "--deselect", "discretisedfield/tests/test_field.py::test_pyvista_streamlines"], tmp, env, 3600)
             tail = rs.stdout.strip().splitlines()[-1] if rs.stdout.strip() else ""
             meta["suite_with_patch"] = tail
